@@ -360,6 +360,15 @@ def check(prop, tier, only_obligation=None):
             for w in ws:
                 r_ = wres[w["file"]]
                 witness_runs.append({"file": w["file"], "fix": w["fix"], "passed": r_["passed"]})
+                if r_["passed"] is False and w.get("tagged"):
+                    # a generic (bounded) witness asserts several properties; each assertion message names the ones it speaks for.
+                    # A failure is reported under this property only if its message carries this property's tag (no tag at all = the
+                    # scenario could not be completed: counts for every property of the file).
+                    tags = sorted(set(re.findall(r"\[(C\d\d)\]", r_["output"])))
+                    witness_runs[-1]["failed_for"] = tags or w["properties"]
+                    if tags and prop not in tags:
+                        print(f"note: bounded witness {w['file']} fails for {','.join(tags)} (not {prop}): reported by the check of that property")
+                        continue
                 if r_["passed"] is False:
                     os.makedirs(os.path.join(VERIF, "replay"), exist_ok=True)
                     path = os.path.join(VERIF, "replay", f"{prop}-witness-{slug(w['file'])}.json")
